@@ -17,9 +17,18 @@ CHECKS = {
  "C01": (X, "stateful property-based testing: generated muxer call histories (proptest vec of ops + interpreter, exhaustive for <=3/4 ops) against a per-track model; read back through the demuxer",
          "Every generated history is muxed, reopened and every sample compared with the model of accepted samples; rejected calls are checked to return Err and to leave the output byte-identical. Small histories are enumerated exhaustively over a 48-letter op alphabet, long ones sampled. Bounded search.",
          "trusts Mp4Reader for read-back (checked independently by C03), proptest; histories <= 400 ops", "DESIGN.md 4/C01"),
+ "C02": (X, "stateful property-based testing of the muxer; output decoded by an independent ISO-BMFF parser (box tiling + sample-table cross-checks against the model)",
+         "Every generated history is muxed and the bytes are judged by a parser that shares no code with the library: exact tiling, table totals vs the model, chunk placement, duration relations in exact integer arithmetic. Bounded search over histories.",
+         "trusts the harness' reference parser; totals come from the model of accepted calls", "DESIGN.md 4/C02"),
  "C03": (X, "property-based testing: small-scope exhaustive enumeration of chunk maps + proptest random tables, ground-truth oracle from an independent encoder",
          "Every sample of every generated file is looked up through sample_count/sample_offset/read_sample and compared with the ground truth kept by the reference encoder that produced the file; chunk-map structure is enumerated exhaustively for small N, other dimensions and large N are sampled. Bounded search: absence beyond the explored scope is not shown.",
          "trusts the harness' reference encoder (no library code) and proptest; sizes <= 300 B/sample", "DESIGN.md 4/C03"),
+ "C14": (X, "property-based testing: full enumeration of the AAC enum product and AVC profile/compat bytes + proptest random configurations, accessor-vs-configuration oracle",
+         "Each generated configuration is muxed with a short history, reopened, and every accessor compared with the configuration (independent AVC profile table; exact-arithmetic one-tick duration tolerance). AAC enum product and profile/compat pairs are exhaustive, the rest sampled.",
+         "trusts the harness' tables; durations kept below 2^50 movie ticks", "DESIGN.md 4/C14"),
+ "C17": (X, "stateful property-based testing over full argument ranges (incl. invalid), panic/abort oracle in two build profiles, plus C01/C02 oracles on all-Ok histories",
+         "Every call of every generated history is wrapped in catch_unwind in a wrapping and an overflow-checked build; process death is caught by the supervisor and confirmed in a fresh process. All-Ok representable histories additionally pass the C02 and C01 oracles. Bounded search.",
+         "typed enum arguments cannot take undeclared values; histories <= 40 ops, <= 100 tracks", "DESIGN.md 4/C17"),
 }
 NOT_APPLICABLE = {}
 for _e in ENGINES:
